@@ -737,6 +737,17 @@ def check_C19():
     rep["evaluations"] += repf["evaluations"]
     rep["distinct_nontrivial"] += repf["distinct_nontrivial"]
     rep["violations"] = (rep["violations"] or []) + (repf["violations"] or [])
+    # the repository's own build links cmd against the RELEASED library (cmd/go.mod has no replace): the filter
+    # configuration once more with a CLI built that way, so that a change in cmd/ that leans on the released
+    # library's behaviour is seen as the repository's build would show it
+    car_rel = vlib.build_car(link="released")
+    rcr, repr_ = harness_run(vh, ["cli-replay", emf["out"], "@REPORT", car_rel, "only=filter", "permille=%d" % (250 if tier() == "quick" else 1000), "seed=%d" % seed()], timeout=3400)
+    for v in (repr_["violations"] or []):
+        v["class"] = v.get("class", "") + "/cli-linked-with-released-library"
+    rep["evaluations"] += repr_["evaluations"]
+    rep["distinct_nontrivial"] += repr_["distinct_nontrivial"]
+    rep["violations"] = (rep["violations"] or []) + (repr_["violations"] or [])
+    rep["counters"]["filter_cases_with_released_library_cli"] = repr_["evaluations"]
     # car get-dag against Traversal.tla: DAGs x selectors x visit-once x incomplete stores x --strict
     gcfgs = [("Traversal_G3", 1000), ("Traversal_G", 100)] if tier() == "quick" else [("Traversal_G", 1000)]
     gd_cases = 0
